@@ -313,7 +313,14 @@ def Tolerant.client (t : Tolerant) (f : Frame) : Verdict Tolerant :=
         match t.grace.find? (·.1 == s.id) with
         | some (_, w, mf) => (s.id, (if w > s.win then w else s.win), (if mf > m0.maxFrame then mf else m0.maxFrame))
         | none => (s.id, s.win, m0.maxFrame)
-      .ok { m := m', grace := grace, graceConc := t.graceConc.orElse fun _ => some m0.maxConc }
+      -- the most generous MAX_CONCURRENT_STREAMS since the last new stream (`none` = unlimited)
+      let conc : Option Nat := match t.graceConc with
+        | none => m0.maxConc
+        | some none => none
+        | some (some a) => match m0.maxConc with
+          | none => none
+          | some b => some (if a > b then a else b)
+      .ok { m := m', grace := grace, graceConc := some conc }
   | .data id len es =>
     let rest := t.grace.filter (·.1 != id)
     match m0.client f with
@@ -353,9 +360,17 @@ def Tolerant.run (t : Tolerant) : List Event → Verdict Tolerant
     | .ok t' => Tolerant.run t' es
   | .p f :: es => Tolerant.run { t with m := Send.peer t.m f } es
 
+/-- index of the first event the tolerant reading rejects (for diagnostics) -/
+def Tolerant.firstBad (t : Tolerant) (i : Nat) : List Event → Option Nat
+  | [] => none
+  | .c f :: es => match t.client f with
+    | .error _ => some i
+    | .ok t' => Tolerant.firstBad t' (i + 1) es
+  | .p f :: es => Tolerant.firstBad { t with m := Send.peer t.m f } (i + 1) es
+
 def verdictTolerant (h : List Event) (consumed : Bool) : String :=
   match Tolerant.init.run h with
-  | .error r => "violation:" ++ r
+  | .error r => "violation:" ++ r ++ (match Tolerant.init.firstBad 0 h with | some i => s!"@{i}" | none => "")
   | .ok t =>
     match t.m.final with
     | .error r => "violation:" ++ r
